@@ -712,7 +712,15 @@ func (w *Proxy) checkC14() {
 			if r.Proto == "http1" {
 				okStatus = rep.Status == 403 || (v == "direct" && rep.Status == 299)
 			}
-			if !okBody || !okStatus {
+			replaced := false // a send filter that replaces whatever response comes by with a reply of its own
+			for _, f := range w.P.Filters {
+				if f.Send && verdict[f.Name] == "sendhijack" {
+					for _, g := range got {
+						replaced = replaced || g == f.Name
+					}
+				}
+			}
+			if (!okBody || !okStatus) && !replaced {
 				s.Violate("C14", "answered_reply_wrong", "req#%d was %s but the client received status %d body %q", r.Idx, end, rep.Status, string(rep.Body))
 			}
 		}
@@ -723,6 +731,7 @@ func (w *Proxy) checkC14() {
 			// a send filter that stops the chain (verdict "sendstop", effective once its receive side ran)
 			// ends the pass: the filters after it do not see the response, which is delivered all the same
 			sendFilters := sendFilters
+			sendHijacker := ""
 			for i, name := range sendFilters {
 				ran := false
 				for _, g := range got {
@@ -732,6 +741,29 @@ func (w *Proxy) checkC14() {
 					sendFilters = sendFilters[:i+1]
 					w.Stats["c14_send_chain_stopped"]++
 					break
+				}
+				if verdict[name] == "sendhijack" && ran {
+					// a send filter that answers the request itself when the response comes by: the filters after it
+					// do not run, nobody runs a second time for the replacement, and the client gets exactly that reply
+					sendFilters = sendFilters[:i+1]
+					sendHijacker = name
+					w.Stats["c14_send_phase_hijacks"]++
+					break
+				}
+			}
+			if sendHijacker != "" && len(sends) >= len(sendFilters) && r.ClientLeftAt == 0 && !r.Oneway && end == "forward" {
+				okReply := len(r.Replies) == 1 && r.Replies[0].Tok == "" && string(r.Replies[0].Body) == "send-hijack-"+sendHijacker
+				if okReply && r.Proto == "http1" {
+					okReply = r.Replies[0].Status == 403
+				} else if okReply {
+					okReply = !r.Replies[0].Success
+				}
+				if !okReply {
+					got := "none"
+					if len(r.Replies) > 0 {
+						got = fmt.Sprintf("%d replies, the first with status %d token %q body %q", len(r.Replies), r.Replies[0].Status, r.Replies[0].Tok, string(r.Replies[0].Body))
+					}
+					s.Violate("C14", "send_phase_answer_wrong", "req#%d: send filter %s replaced the response by a reply of its own; the client must get exactly that reply, got %s", r.Idx, sendHijacker, got)
 				}
 			}
 			answered := 0
